@@ -390,11 +390,23 @@ func (n *c18Node) issue(r c18Req, exp int64, val []byte) (err error, proxied boo
 		fs := NewFakeBrainWatchStream()
 		done := make(chan error, 1)
 		go func() { done <- n.brainSrv.Watch(&proto.WatchRequest{Key: []byte(Prefix + "/")}, fs) }()
+		// the handler decides at once: it returns (refusal), or it hands the watch to the backend (served locally);
+		// wait for one of the two without a tight deadline
 		finished := false
-		select {
-		case err = <-done:
-			finished = true
-		case <-time.After(30 * time.Millisecond):
+		deadline := time.After(10 * time.Second)
+	bwait:
+		for {
+			select {
+			case err = <-done:
+				finished = true
+				break bwait
+			case <-deadline:
+				break bwait
+			case <-time.After(200 * time.Microsecond):
+				if n.rec.saw("Watch") {
+					break bwait
+				}
+			}
 		}
 		fs.Close()
 		if !finished {
